@@ -358,7 +358,8 @@ Record Vw (k : case) (nd : nat) (s : state) (code : Z) (o : obs) : Prop := mkVw 
   vw_queue : o_queue o = qproj k s;
   vw_bals : o_bals o = mat (accounts k) nd (bal (st_bank s));
   vw_sups : o_sups o = sproj_assets k s;
-  vw_bsups : o_bsups o = bsproj k s }.
+  vw_bsups : o_bsups o = bsproj k s;
+  vw_params : o_params o = st_params s }.
 
 Lemma mat_hd_length k nd f : length (hd [] (mat (accounts k) nd f)) = nd.
 Proof.
@@ -373,7 +374,7 @@ Proof.
   rewrite (vw_contracts _ _ _ _ _ V). unfold cproj. rewrite eqb_refl. simpl.
   rewrite (vw_queue _ _ _ _ _ V). unfold qproj. rewrite map_length, Nat.eqb_refl. simpl.
   rewrite Hd, (vw_bals _ _ _ _ _ V). unfold mat. rewrite eqb_refl.
-  rewrite (vw_sups _ _ _ _ _ V), (vw_bsups _ _ _ _ _ V). unfold sproj_assets, bsproj. rewrite !eqb_refl.
+  rewrite (vw_sups _ _ _ _ _ V), (vw_bsups _ _ _ _ _ V), (vw_params _ _ _ _ _ V). unfold sproj_assets, bsproj. rewrite !eqb_refl.
   rewrite !andb_true_r. apply forallb_forall. intros e He. apply existsb_exists.
   exists (fst e, index_from (snd e) (k_ids k) 0). split.
   - apply in_map_iff. exists e. auto.
